@@ -1416,6 +1416,11 @@ class Interp:
             self.path.assume(app == bt)
             for fact in self.reg.auto_facts(func, self, argvals, wrap(app)):
                 self.path.assume(fact)
+        elif opaque_ and key not in self.path.instances:
+            # kept uninterpreted in this VC, but its proved side facts (<f>__facts) still hold
+            self.path.instances[key] = app
+            for fact in self.reg.auto_facts(func, self, argvals, wrap(app)):
+                self.path.assume(fact)
         return wrap(app)
 
     def spec_block(self, stmts, fr):
